@@ -411,7 +411,7 @@ PROPS['C04'] = dict(
     explanation='Acceptance of a whole message is the conjunction of the three per-part decodes and the final check that nothing is left; the last conjunct is what the code omits.',
 )
 PROPS['C05'] = dict(
-    units=['k_dec'], level='model_checking', design_ref='13/C05',
+    units=['k_dec', 'k_menc'], level='model_checking', design_ref='13/C05',
     technique='CBMC assertions on MessageBase::decode in permissive mode (clang AST of runtime/message.cpp) over a ghost token sequence, loop unwound for the stated bound; the refutation replayed '
               'through the real Message::factory / Message::encode on the generated FIX42 test classes',
     text='Permissive mode, one message part, BOUNDED (3 tokens, 3 field traits): the returned offset lies inside the text; no known field before the returned offset is lost. '
@@ -452,7 +452,9 @@ PROPS['C11'] = dict(
          'unchanged. Move: the very same field objects arrive once, the source no longer refers to them and its positions are cleared, nothing is copied. '
          'KNOWN FINDING (refuted, replayed on the real code): the copy does not keep the relative order of the fields -- add_field places every field at its SCHEMA position -- so clone() of a decoded '
          'message whose body fields arrived in another order re-encodes to different bytes (same fields, same values, same checksum; 55,11,54,21,40.. becomes 11,21,55,54,..). Messages built through '
-         'the API are in schema order already and clone byte-identically. NOT decided: repeating groups (nested copy / move), force = true, Message::clone\'s header / trailer composition, the bound.',
+         'the API are in schema order already and clone byte-identically. Groups (one group with one element): copy creates one new element in the TARGET\'s group per source element and copies the source element into it, the count field is copied too; '
+         'move hands the source\'s group object to the target (replacing its empty one or adding it) and the source forgets it. Message::clone (proved-modular over copy_legal): a new message '
+         'of the same type is created and body, header and trailer are each copied into the matching part, never with force. NOT decided: nested groups beyond one level / one element, force = true, the bound.',
     note='bounded stand-in (3 traits per part, no groups), never counted as proved; field / position maps are small insertion logs; BaseField::copy() is an ASSUMED model',
     trusted_base=COMMON_TRUST,
     explanation='Byte identity of a clone needs the same fields, the same values and the same order; the first two are per-field obligations, the third is the order obligation that fails.',
